@@ -61,7 +61,7 @@ def configs_for(spec, wanted):
 def plan_specs(plan, tier, seed):
     specs = []
     specs += curated_specs(plan.get('curated', []))
-    mult = 1 if tier == 'quick' else plan.get('thorough_mult', 5)
+    mult = 1 if tier == 'quick' else plan.get('thorough_mult', 3)
     for prof, n in plan['profiles']:
         for i in range(n * mult):
             specs.append(specgen.gen_spec(prof, seed, i))
@@ -394,8 +394,8 @@ def c14_run(prop, tier, seed):
     known, fixed = load_known(prop)
     known_sigs = [k['sig'] for k in known]
     # ---- A. front-end differential --------------------------------------------------------------
-    specsA = [specgen.gen_spec('frontlang', seed, i) for i in range(3 if quick else 12)]
-    specsB = [specgen.gen_spec('frontlang2', seed, i) for i in range(2 if quick else 8)]
+    specsA = [specgen.gen_spec('frontlang', seed, i) for i in range(3 if quick else 8)]
+    specsB = [specgen.gen_spec('frontlang2', seed, i) for i in range(2 if quick else 5)]
     todo = []
     for sp in specsA:
         for cfg in (1, 4, 5) if quick else (1, 2, 4, 5, 7):
@@ -418,7 +418,7 @@ def c14_run(prop, tier, seed):
             continue
         groups.setdefault((sp['id'], cfg), (sp, {}))[1][key] = b
     jobs = []
-    nex = 200 if quick else 1500
+    nex = 200 if quick else 800
     for (sid, cfg), (sp, bins) in groups.items():
         if len(bins) >= 2:
             jobs.append(dict(spec=sp, cfg=sorted(bins)[0], bins=bins, prop=prop, oracle='C14', cp=dict(max_ops=20, kinds=['P', 'P', 'P', 'P', 'T'], auto_probe=True),
